@@ -185,6 +185,26 @@ def b_listd(k, ds):
     return [{"q": [ds[0]["a"] * ds[1]["a"]]}, ({"r": ds[0]["a"] + ds[1]["b"][0]},)]
 
 
+import enum
+
+
+class Level(enum.IntEnum):
+    LOW = 1
+    HIGH = 3
+
+
+class Metres(int):
+    pass
+
+
+class Ratio(float):
+    pass
+
+
+def b_sub(k, lvl, m, ratio, flag, x):
+    return [x * lvl + m, x * flag]
+
+
 def b_const(k, x):
     return 5
 
@@ -202,6 +222,8 @@ PROGRAMS = {
     "dict_nested": ([(b_dictn, lambda k: ({"w": [k.v("x"), k.v("y")], "b": (k.v("z"), {"c": 2})}, [3, k.v("x")]))],
                     ("x", "y", "z")),
     "list_of_dicts": ([(b_listd, lambda k: ([{"a": k.v("x")}, {"a": k.v("y"), "b": [k.v("z")]}],))], ("x", "y", "z")),
+    # arguments that are instances of proper subclasses of int / float (an IntEnum member, a unit-tagged int, a float subclass)
+    "subclass_args": ([(b_sub, lambda k: (Level.HIGH, Metres(6), Ratio(0.5), True, k.v("x")))], ("x",)),
     "nested": ([(b_nested, lambda k: ((k.v("x"), (k.v("y"), k.v("z"))),))], ("x", "y", "z")),
     "mixed_out": ([(b_mixed, lambda k: (1.5, k.v("x")))], ("x",)),
     "mixed_in": ([(b_mixed_in, lambda k: (k.v("x"), 2.25, k.v("y")))], ("x", "y")),
